@@ -78,7 +78,7 @@ func init() {
 		o := o
 		p.Strata = append(p.Strata, mon.Stratum{
 			Name: "random/" + o.Name,
-			N:    qt(25000, 600000),
+			N:    qt(25000, 4800000),
 			Run: func(c *mon.Ctx, i int) {
 				prof := mergeProfiles[i%len(mergeProfiles)]
 				a, b := gen.Pair(c.R, prof)
